@@ -2,6 +2,10 @@ CONSTANTS
   TableUnits <- MCTable
   Strides = {1, 7}
   AllPairs = FALSE
+  XStride = 6
+  ArrForms = {"kw","alias"}
+  AliasOps = {"clip"}
+  DlUnits = {}
   Units = {}
   ConvUnits = {}
   UKinds0 = {}
@@ -14,6 +18,6 @@ CONSTANTS
   Hists = {}
   HUnits = {}
 INIT Init
-NEXT TNext
+NEXT TNextAll
 INVARIANT Export
 CHECK_DEADLOCK FALSE
